@@ -28,10 +28,13 @@ def close_sets(positions, best, n):
     return must, may
 
 
-def dense_channel_sets(spec, U, thr, n_closest):
-    """Required and allowed channel sets of a dense template with waveform U."""
+def dense_channel_sets(spec, U, thr, n_closest, best=None):
+    """Required and allowed channel sets of a dense template with waveform U (best: which of several exactly
+    tied peak channels the implementation chose; default the first)."""
     amp = ptp(U)
-    best = int(np.argmax(amp))
+    if best is None or amp[int(best)] < amp.max():
+        best = int(np.argmax(amp))
+    best = int(best)
     peak = set(np.nonzero(amp >= thr * amp[best])[0].tolist())
     must, may = close_sets(spec.positions, best, n_closest)
     shank = spec.shanks if spec.shanks is not None else np.zeros(spec.n_channels, int)
@@ -89,7 +92,9 @@ def check_record(rec, U_full, explicit=None, rtol=1e-5, atol=1e-6):
         if (np.diff(col_amp) > atol + rtol * np.abs(col_amp[:-1])).any():
             out.append(('not_decreasing', 'channels %s have ptp %s, not non-increasing' % (
                 ch.tolist(), np.round(col_amp, 4).tolist())))
-        if int(rec.best_channel) != int(ch[0]):
+        # (with exactly tied amplitudes - a template without signal - any of the tied channels may come first)
+        bpos = np.nonzero(ch == int(rec.best_channel))[0]
+        if int(rec.best_channel) != int(ch[0]) and not (len(bpos) and col_amp[bpos[0]] >= col_amp[0] - atol):
             out.append(('peak_not_first', 'best_channel %r but first listed channel %d' % (rec.best_channel, ch[0])))
     return out
 
